@@ -151,6 +151,7 @@ def import_shape(tree):
 
 def shape_of(tree):
     return {
+        'arity': {q: len(f.args.args) + len(f.args.kwonlyargs) for q, f in functions(tree)},
         'from_imports': import_shape(tree)[0], 'imports': import_shape(tree)[1],
         'loops': {q: loop_texts(f) for q, f in functions(tree) if loop_texts(f)},
         'comps': {q: comp_texts(f) for q, f in functions(tree) if comp_texts(f)},
@@ -281,6 +282,39 @@ def rename_attributes(tree, ref):
     return n
 
 
+def rename_methods(tree, ref):
+    """private methods (and module-level private functions) that were merely renamed get their reference names back: per class, the
+    names unknown to the reference are mapped, in definition order, onto the reference names that went missing - only when the counts
+    agree and the new names are private; definitions, `x.<name>` references and bare-name references are renamed together."""
+    known = ref.get('funcs', [])
+    n = 0
+    scopes = [('', tree.body)] + [(q + '.', c.body) for q, c in classes(tree)]
+    for prefix, body in scopes:
+        have = [st.name for st in body if isinstance(st, (ast.FunctionDef, ast.AsyncFunctionDef))]
+        want = [k[len(prefix):] for k in known if k.startswith(prefix) and '.' not in k[len(prefix):]]
+        unknown = [h for h in have if h not in want]
+        missing = [w for w in want if w not in have]
+        if not unknown or len(unknown) != len(missing) or not all(u.startswith('_') and not u.startswith('__') for u in unknown):
+            continue
+        # a renamed method keeps its arity: pair by definition order, require equal parameter counts when the reference knows them
+        mapping = dict(zip(unknown, missing))
+        defs = {st.name: st for st in body if isinstance(st, (ast.FunctionDef, ast.AsyncFunctionDef))}
+        ar = ref.get('arity', {})
+        if any(ar.get(prefix + w) != len(defs[u].args.args) + len(defs[u].args.kwonlyargs) for u, w in mapping.items()):
+            continue            # different signature: not a plain rename
+        if any(w in {x.attr for x in ast.walk(tree) if isinstance(x, ast.Attribute)} | {x.id for x in ast.walk(tree) if isinstance(x, ast.Name)} for w in mapping.values()):
+            continue
+        for node in ast.walk(tree):
+            if isinstance(node, (ast.FunctionDef, ast.AsyncFunctionDef)) and node.name in mapping and node in body:
+                node.name = mapping[node.name]
+            elif isinstance(node, ast.Attribute) and node.attr in mapping:
+                node.attr = mapping[node.attr]
+            elif isinstance(node, ast.Name) and node.id in mapping and prefix == '':
+                node.id = mapping[node.id]
+        n += len(mapping)
+    return n
+
+
 # ---------------------------------------------------------------------------------------------- 2. constants
 def inline_constants(tree, ref):
     known = set(ref.get('consts', []))
@@ -362,6 +396,20 @@ def inline_constants(tree, ref):
         for i, st in enumerate(tree.body):
             tree.body[i] = a.visit(st)
         n += len(cenv)
+    return n
+
+
+# ---------------------------------------------------------------------------------------------- 0a. annotated bindings
+def strip_annotations(tree, ref):
+    """`x: T = v` inside a function is the binding `x = v` (annotations are not evaluated for locals and have no effect on attributes)"""
+    n = 0
+    for q, fn in functions(tree):
+        for block in _blocks(fn):
+            for i, st in enumerate(block):
+                if isinstance(st, ast.AnnAssign) and st.value is not None and isinstance(st.target, (ast.Name, ast.Attribute)):
+                    t = st.target
+                    block[i] = ast.copy_location(ast.Assign(targets=[t], value=st.value, lineno=st.lineno), st)
+                    n += 1
     return n
 
 
@@ -1269,7 +1317,8 @@ def normalise(tree, path, ref_locals):
     if ref is None:
         return {}
     out = {}
-    for name, fn in (('imports', lambda: normalise_imports(tree, ref)), ('attributes', lambda: rename_attributes(tree, ref)), ('constants', lambda: inline_constants(tree, ref)),
+    for name, fn in (('annotations', lambda: strip_annotations(tree, ref)), ('imports', lambda: normalise_imports(tree, ref)), ('attributes', lambda: rename_attributes(tree, ref)),
+                     ('methods', lambda: rename_methods(tree, ref)), ('constants', lambda: inline_constants(tree, ref)),
                      ('structs', lambda: inline_struct_objects(tree, ref)),
                      ('helpers', lambda: inline_helpers(tree, ref)), ('ifexps', lambda: expand_ifexps(tree, ref)),
                      ('unrolled', lambda: unroll_loops(tree, ref)),
